@@ -154,7 +154,7 @@ def stray_pdu_scenario(kind):
         if not a.is_established:
             return {"error": "not established"}
         a.send_c_echo()
-        leaks = e2e.wait_quiet(before, 3 * 3 + 2.0)
+        leaks = e2e.wait_quiet(before, 3 * 3 + 2.0, (rec_req, rec_acc))
         res = {"script": {"req": ["echo"], "acc": "stray-" + kind, "acc_delay_ms": 0, "reject": False, "shake": False, "timeouts": 3},
                "thread_errors": list(thread_errors), "leaks": leaks,
                "req": {"hist": rec_req.history(a)}, "acc": {"hist": rec_acc.history(acc["a"]) if "a" in acc else []}}
@@ -218,7 +218,7 @@ def stream_cancel_scenario(n_pending):
                 a.send_c_cancel(1, query_model=FIND)
         if a.is_established:
             a.release()
-        leaks = e2e.wait_quiet(before, 2 * t_o + 2.0)
+        leaks = e2e.wait_quiet(before, 2 * t_o + 2.0, (rec_req, rec_acc))
         return {"script": {"req": ["find-cancel", "release"], "acc": f"stream-cancel-{n_pending}", "acc_delay_ms": 0, "reject": False,
                            "shake": False, "timeouts": t_o},
                 "thread_errors": list(thread_errors), "leaks": leaks, "responses": seen,
@@ -235,6 +235,10 @@ def run(ctx):
         "case = the complete notification history of one side; non-trivial = at least 8 recorded notifications"
     )
     ctx.assumptions.append("real thread interleavings are sampled (shaken), not enumerated")
+    ctx.assumptions.append(
+        "a recorded history is judged as complete (close clause demanded) once its association has been started and its "
+        "threads have ended, the recorders being frozen at that point - or when the scenario's time limit expired"
+    )
     results = []
     scenarios = [e2e.gen_scenario(ctx.rng) for _ in range(ctx.n(120, 3000))]
     for res in e2e.run_many(scenarios, ctx.seed, workers=12):
